@@ -477,9 +477,37 @@ def C10(tier):
                 assumptions=["ln is judged through a table of round(ln k * 2^20), k <= 32, at a tolerance of (n+2) * 2^-18"], trusted=["quantisation in the harness"])
 
 
-PLANS = {"C06": C06, "C07": C07, "C08": C08, "C09": C09, "C10": C10, "C17": C17, "C11": C11, "C13": C13, "C12": C12, "C05": C05, "C14": C14, "C15": C15, "C02": C02, "C16": C16, "C04": C04, "C01": C01, "C18": C18, "C19": C19, "C03": C03}
+def C20(tier):
+    models = [
+        dict(module="LayoutModel", name="MC_Layout",
+             cfg=dict(constants=dict(MaxDim=2, MaxExt=q(tier, 3, 3), MaxStep=q(tier, 2, 3), Emit=False), invariants=["InParent", "NoAlias", "LanesPartition", "ShapeOK"])),
+    ] + ([] if tier == "quick" else [
+        dict(module="LayoutModel", name="MC_Layout_3d",
+             cfg=dict(constants=dict(MaxDim=3, MaxExt=2, MaxStep=2, Emit=False), invariants=["InParent", "NoAlias", "LanesPartition", "ShapeOK"])),
+    ]) + [
+        dict(module="LayoutModel", name="MC_Layout_emit", emit=True,
+             cfg=dict(constants=dict(MaxDim=2, MaxExt=q(tier, 2, 3), MaxStep=q(tier, 2, 2), Emit=True), invariants=["NoAlias", "EmitInv"])),
+    ]
+    stages = [
+        dict(name="model_layouts", family="layout", trace="Trace_Layout", profile="dev", cases_from=["MC_Layout_emit"], chunk=20000),
+        dict(name="random_layouts", family="layout", trace="Trace_Layout", profile="dev", gen=dict(count=(150, 1500)), chunk=20000),
+    ]
+    return dict(models=models, stages=stages, nontrivial=lambda o: o.get("ev") == "layout" and len(o.get("r", [])) >= 2, exhaustive=True,
+                rule="every layout descriptor TLC enumerates (1..2-D parents up to 3x3, C/F order, every slice with step to +-2, every axis permutation) "
+                     "and random 1..3-D (thorough: 4-D) ones; for each, 52 public routines are evaluated on seven representations of the same logical "
+                     "array (C owned dyn, F owned static, the given layout as view / owned-in-place / mutable view, another random layout as ArcArray "
+                     "and as CowArray with static dimension); second operands and weights get the same treatment; one event per (array, routine); "
+                     "non-trivial = arrays with >= 2 elements",
+                assumptions=NUM_ASSUME[:1] + ["grid data make every partial sum exact, so float results are expected to agree to the quantum whatever the summation order"],
+                trusted=["quantisation of float results at 2^-20", "ndarray's slicing / permutation / ownership conversions used to build the representations"])
+
+
+PLANS = {"C20": C20, "C06": C06, "C07": C07, "C08": C08, "C09": C09, "C10": C10, "C17": C17, "C11": C11, "C13": C13, "C12": C12, "C05": C05, "C14": C14, "C15": C15, "C02": C02, "C16": C16, "C04": C04, "C01": C01, "C18": C18, "C19": C19, "C03": C03}
 
 HOOK_COMMITS = ["6df096f"]
+
+TECH = "explicit TLA+ specification model-checked with TLC + replay of TLC-generated behaviours into the real code + TLC trace validation of the recorded observations"
+
 
 NOT_CLAIMED = {}
 
@@ -510,3 +538,102 @@ META = {
         design_ref="DESIGN.md section 5, C16", note=SORT_NOTE + "Outcome classification relies on catch_unwind; worker aborts/timeouts are reported as violations of their own kind.",
         technique="TLC model checking incl. out-of-range requests + replay in two build profiles + trace validation"),
 }
+
+GEN_NOTE = ("Trusted: TLC and its Json module; the harness' projections (named per property); ndarray's slicing/iteration used to build inputs and read results. "
+            "Exhaustive only up to the stated bounds; beyond them randomized drivers sample. ")
+
+META.update({
+    "C01": dict(
+        text="The per-lane quantile pipeline (validity check, index collection, bulk selection, interpolation) is a TLA+ state machine over a 4-bit "
+             "machine integer type, model-checked against QuantileValueOK for every lane over a spaced value set (and the full 4-bit range for short "
+             "lanes), every request on a rational grid and all five strategies (the signed-overflow defect F6 is a named action). Every model behaviour "
+             "is replayed on i8 (also scaled so the overflow conditions coincide), u8, i64 and N64, and thousands of randomized n-D calls (layouts, "
+             "axes, ulp-offset q values aimed at integral and half-integral positions, extremes of i8/u8, 2^k offsets, scripted pivots) are judged by "
+             "TLC with the exact position computed from the bits of q.",
+        design_ref="DESIGN.md section 5, C01", note=GEN_NOTE + "Values enter as exact small integers relative to a power-of-two base; Linear/Midpoint judged within one unit (ints) or 2^-10 (N64).",
+        technique=TECH),
+    "C03": dict(
+        text="Bag preservation and cursor safety are invariants of the fine-grained Partition and RemoveNan models in every state; on the real code the "
+             "parent buffer is recorded before and after every mutating routine on offset / stepped / reversed / permuted views and TLC checks that each "
+             "lane keeps its multiset and every cell outside the view is unchanged (also on panicking out-of-range calls).",
+        design_ref="DESIGN.md section 5, C03", note=GEN_NOTE + "Address projection: (as_ptr - base)/size, shape and strides as reported by ndarray.", technique=TECH),
+    "C04": dict(
+        text="The two-pointer compaction and the cast to the NotNan type are a fine-grained TLA+ machine over a memory model (parent buffer, view = ptr/len/"
+             "stride); TLC checks RemoveNanOK, frame and loop invariants, idempotence and termination for every missing-pattern up to length 6/8, strides "
+             "-3..3 and offsets, for both element kinds. Every pattern is replayed for the element types (all 14 in the thorough tier) and the returned "
+             "view's pointer, length and stride are judged by TLC; lanes of n-D arrays are covered through map_axis_skipnan_mut; the call is repeated to "
+             "check determinism and idempotence.",
+        design_ref="DESIGN.md section 5, C04", note=GEN_NOTE + "Contents are read back through the parent buffer, never through the NotNan-typed view; UB itself is not observed (a worker abort is an outcome).", technique=TECH),
+    "C05": dict(
+        text="The extremum scans are a TLA+ state machine (seed with the first element, compare every element through a partial order that fails on NaN); "
+             "TLC checks the scan invariant and ArgOK/ValOK for every sequence of length <= 5/6 over ranks {NaN,1,2,3}. Each sequence is laid out as every "
+             "factorisation of its length (0-D, 4-D and zero-length axes included) in C/F/sliced/permuted layouts for i32/f32/f64 and judged by TLC.",
+        design_ref="DESIGN.md section 5, C05", note=GEN_NOTE + "Rank projection (NaN = 0, -0.0/0.0 one rank, infinities extreme ranks).", technique=TECH),
+    "C06": dict(
+        text="Exact rational definitions (NumOps) are the oracle: the real routines are run on exactly representable grid data (small integers / 4 plus "
+             "power-of-two offsets, weights in independent layouts, every axis) and TLC compares round(res * 2^qe) with the exact value by cross-"
+             "multiplication; integer element types are compared exactly. The Summary model checks the shift lemma that justifies judging offset data "
+             "with small integers.",
+        design_ref="DESIGN.md section 5, C06 and section 7", note=GEN_NOTE + "Decided at a quantum (2^-14 f64, 2^-8 f32), not at roundoff level: precision-only regressions below the quantum are invisible (DESIGN.md section 7).", technique=TECH),
+    "C07": dict(
+        text="TLC checks the algebra of the kernels on exact integers (binomial recombination of shifted raw moments for every residual shift, West's loop "
+             "invariant including zero weights, shift lemma); the real routines are judged against the exact rational values on grid data with offsets to "
+             "2^45 (moments) / 2^20 (variance), zero weights, ddof in {0, 1/2, 1}, orders 0..8, skewness/kurtosis in cross-multiplied form.",
+        design_ref="DESIGN.md section 5, C07 and section 7", note=GEN_NOTE + "Quantum 2^-16 .. 2^-6 depending on the order (exact numerators must fit 31 bits); roundoff-level constants are not decided.", technique=TECH),
+    "C08": dict(
+        text="cov is compared with the exact rational value, pearson through r^2 var_i var_j = cov_ij^2 with the sign of cov_ij, plus symmetry, diagonal, "
+             "range and the metamorphic laws (scaling a variable by 2^s with |s| up to 400 plus a shift leaves it unchanged, negation flips a row and "
+             "column), all evaluated by TLC on observations of the real code in C/F/sliced/transposed layouts.",
+        design_ref="DESIGN.md section 5, C08", note=GEN_NOTE + "Quantum 2^-6 for the squared identity (31-bit numerators); roundoff-level bounds are not decided.", technique=TECH),
+    "C09": dict(
+        text="Counts and distances are exact integers for i32/i64/BigInt and exact after scaling for quarter-grid floats, so TLC compares them for equality "
+             "with the definitions; derived measures through their defining functions (squares, /n, exact points of the PSNR); symmetry and zero on "
+             "identical arguments from swapped / duplicated calls; operands in independently chosen layouts.",
+        design_ref="DESIGN.md section 5, C09", note=GEN_NOTE + "log10 is judged only at exact points.", technique=TECH),
+    "C10": dict(
+        text="Dyadic distributions make p ln p a table lookup: TLC evaluates the definitions through round(ln k * 2^20) and checks the observed values, "
+             "the identities (KL(p,p) = 0, H(p,q) = H(p) + KL, KL >= 0, H <= ln n) and the exact NaN / infinity behaviour, including a NaN of q under a "
+             "zero of p, for p and q in different layouts.",
+        design_ref="DESIGN.md section 5, C10", note=GEN_NOTE + "Tolerance (n+2) * 2^-18; accuracy of ln beyond that is not decided.", technique=TECH),
+    "C11": dict(
+        text="Histogram is a TLA+ state machine (New, Add, AddRejected) explored by TLC for every grid over small edge domains (zero-bin axes included) "
+             "and every history to depth 4/5 with the invariant counts = #observations per cell in every state. Every history TLC emits is replayed on real "
+             "Histogram objects; the trace validator carries the specification state and checks every add_observation step and the invariant against the "
+             "whole history; the matrix form is checked for row-major, column-major and sliced matrices.",
+        design_ref="DESIGN.md section 5, C11", note=GEN_NOTE + "Values are small integers mapped monotonically to i32/u8/i64/N64.", technique=TECH + " (stateful: the trace spec reuses the design spec's AddResult)"),
+    "C12": dict(
+        text="EquiSpaced::n_bins/build are a TLA+ machine instantiated over the integers and over MiniFloat(P) (round-to-nearest-even binary floats "
+             "built from TLC integers): cover, equal width and termination are model-checked, and the regress configuration exhibits the two float "
+             "defects of the pinned commit. Real strategies (all five, ints and N64 incl. 0.3+0.1k, 1e9+0.001k, 1e16+2k, heavy ties) are judged by TLC on the "
+             "bins built in doubled-rank space, plus a histogram over a GridBuilder grid.",
+        design_ref="DESIGN.md section 5, C12", note=GEN_NOTE + "MiniFloat is a design-level argument about the algorithm, not about f64; the f64 statement comes from the conformance runs. Bin-count formulas are not re-derived.", technique=TECH),
+    "C13": dict(
+        text="TLC enumerates every edge input sequence up to the bound (duplicates and every order) and checks that the transcribed five-way match of "
+             "indices_of equals the left-closed right-open lookup, plus the accessor equations; every sequence is replayed for i32/u8/N64 from Vec and "
+             "from (sliced) owned arrays and all accessors of Edges, Bins and Grid are compared with the specification.",
+        design_ref="DESIGN.md section 5, C13", note=GEN_NOTE, technique=TECH),
+    "C14": dict(
+        text="Every skip form is specified as the plain form on the filtered sequence (MinMaxOps); TLC checks the skip-scan machine against it and "
+             "judges the real min/max/argmin/argmax_skipnan, the folds and visits (through recording closures, every axis) and "
+             "quantile_axis_skipnan_mut (QuantileValueOK on the kept elements, missing value for an empty lane).",
+        design_ref="DESIGN.md section 5, C14", note=GEN_NOTE, technique=TECH),
+    "C17": dict(
+        text="The error behaviour is a decision table in TLA+ (module Errors): TLC enumerates all rows, checks that the transcribed guard order of each "
+             "routine class agrees with the documented outcome, and every row is executed by every routine of the class; variant and payload are judged "
+             "by TLC.",
+        design_ref="DESIGN.md section 5, C17", note=GEN_NOTE + "cov is a known finding (F7).", technique=TECH),
+    "C18": dict(
+        text="At model level the single forms are the bulk forms on one-element requests (BulkEqSingle invariant); on the real code paired calls on clones "
+             "of the same input are compared item by item by TLC: quantiles vs quantile, bulk vs single selection, central_moments(p)[k] vs "
+             "central_moment(k) and per-axis weighted statistics vs the whole-array routine per lane (bit projection).",
+        design_ref="DESIGN.md section 5, C18", note=GEN_NOTE + "Bit identity is required for the moment pair and the per-axis family as observed on the current code.", technique=TECH),
+    "C19": dict(
+        text="Groups of calls on one lane (five strategies x a dense ascending q grid around every breakpoint, a permuted copy, a relabelled copy) are "
+             "checked by TLC against the order laws in doubled-rank space - no value oracle; the same laws hold as invariants of the Quantile model.",
+        design_ref="DESIGN.md section 5, C19", note=GEN_NOTE + "Where a breakpoint lies within the rounding error of the f64 position the affected law is not applied; beyond 2^53 only Linear's exact points are required.", technique=TECH),
+    "C20": dict(
+        text="A TLA+ memory model of ndarray views (Layout) is model-checked (no aliasing, lanes partition the view) and bound to ndarray by comparing "
+             "predicted and observed geometry; 52 public routines are evaluated on seven representations of each logical array and TLC checks that the "
+             "results are identical (order-based / integer), equal at the quantum (float sums) or designate an extremal element (index forms).",
+        design_ref="DESIGN.md section 5, C20", note=GEN_NOTE, technique=TECH),
+})
